@@ -27,6 +27,7 @@ RULE = (
 )
 ASSUMPTIONS = [
     "numpy backend; single-character labels",
+    "a quarter of the trees are the product of simulated_anneal / parallel_temper / subtree_reconfigure; the figures are always judged against the steps the tree itself lists (traverse)",
     "peak follows the documented definition (inputs + output of the running step alive together)",
 ]
 
@@ -46,6 +47,13 @@ def cases(draw, max_n):
         "aseed": draw(st.integers(0, 999)),
         # positions (into the removal list) of labels restored again afterwards
         "restore": draw(st.lists(st.integers(0, 3), max_size=2, unique=True)) if removed and draw(st.booleans()) else [],
+        # every figure is also asked for BEFORE the labels are removed and/or
+        # between removing and restoring (lazily cached figures must follow)
+        # the tree under examination may be one that a transformation produced
+        "pre": draw(st.sampled_from([None, None, None, "anneal", "reconf", "temper"])),
+        "pre_seed": draw(st.integers(0, 99)),
+        "touch_before": draw(st.booleans()),
+        "touch_mid": draw(st.booleans()),
     }
 
 
@@ -76,10 +84,45 @@ def run_case(spec, sub=None):
     )
     if not ok:
         return Outcome([f"from_path raised {tree}"], False, ["error"])
+    pre = spec.get("pre")
+    if pre:
+        sd_ = spec.get("pre_seed", 0)
+        if pre == "anneal":
+            ok, r = guarded(tree.simulated_anneal_, tsteps=2, numiter=3, tstart=5.0, seed=sd_)
+        elif pre == "temper":
+            ok, r = guarded(tree.parallel_temper_, tsteps=2, numiter=2, num_trees=2, parallel=False, seed=sd_)
+        else:
+            ok, r = guarded(tree.subtree_reconfigure_, subtree_size=4, maxiter=3, select="random", seed=sd_)
+        if not ok:
+            return Outcome([f"{pre} raised {r}"], False, ["error"])
+
+    def touch():
+        def go():
+            tree.contract_stats()
+            tree.peak_size()
+            tree.max_size()
+            tree.has_preprocessing()
+            for node in list(tree.info):
+                tree.get_size(node)
+                tree.get_legs(node)
+                if len(node) > 1:
+                    tree.get_flops(node)
+                    tree.get_involved(node)
+
+        return guarded(go)
+
+    if spec.get("touch_before"):
+        ok, r = touch()
+        if not ok:
+            return Outcome([f"cost query raised {r}"], False, ["error"])
     for ix, p in removed:
         ok, r = guarded(tree.remove_ind_, ix, project=p)
         if not ok:
             return Outcome([f"remove_ind_({ix!r}, project={p}) raised {r}"], False, ["error"])
+    if spec.get("touch_mid"):
+        ok, r = touch()
+        if not ok:
+            return Outcome([f"cost query raised {r}"], False, ["error"])
 
     back = []
     for k_ in spec.get("restore", []):
@@ -232,6 +275,10 @@ def run_case(spec, sub=None):
     cls = gen.net_classes(net)
     nontrivial = bool(removed) or bool(cls & {"hyper", "repeat"})
     tags = sorted(cls) + [f"order={spec['order']}", f"removed={len(removed)}"] + (["restored_some"] if back else [])
+    if spec.get("pre"):
+        tags.append(f"tree_from={spec['pre']}")
+    if spec.get("touch_before") or spec.get("touch_mid"):
+        tags.append("queried_before_final_state")
     if any(p is not None for _, p in removed):
         tags.append("projected")
     if any(ix in output for ix, _ in removed):
